@@ -265,3 +265,40 @@ func TestCondBroadcastAndSignal(t *testing.T) {
 		t.Fatalf("signal: released %d, expected 1 and a deadlock, got %+v", n, res)
 	}
 }
+
+func TestMapBasics(t *testing.T) {
+	res := Run(t, Config{Chooser: pickHigh{}}, func() {
+		var m Map
+		var wg WaitGroup
+		wg.Add(3)
+		for i := 0; i < 3; i++ {
+			i := i
+			Go(func() {
+				defer wg.Done()
+				m.Store(i, i*10)
+				if v, loaded := m.LoadOrStore("shared", i); loaded && v == nil {
+					t.Errorf("LoadOrStore returned loaded with nil")
+				}
+			})
+		}
+		wg.Wait()
+		n := 0
+		m.Range(func(k, v any) bool { n++; return true })
+		if n != 4 {
+			t.Errorf("Range visited %d entries, want 4", n)
+		}
+		if v, ok := m.Load(2); !ok || v != 20 {
+			t.Errorf("Load(2) = %v, %v", v, ok)
+		}
+		m.Delete(2)
+		if _, ok := m.Load(2); ok {
+			t.Errorf("Delete did not delete")
+		}
+		if !m.CompareAndSwap(1, 10, 11) || m.CompareAndSwap(1, 10, 12) {
+			t.Errorf("CompareAndSwap")
+		}
+	})
+	if res.Deadlock || len(res.Panics) > 0 || !res.MainDone {
+		t.Fatalf("map: %+v", res)
+	}
+}
